@@ -77,11 +77,41 @@ def run_real(threads, busy, plan, gap=0.25):
         s.cleanup()
 
 
+def run_pipelined(threads):
+    """two requests arrive in ONE segment on a fresh connection: the second is in the worker's hands (read ahead by the
+    parser) when the first has been answered"""
+    s = rp.Server("gthread", workers=1, threads=threads, args=["--keep-alive", str(KA), "--timeout", "30"], name="c13")
+    try:
+        s.start()
+        s.wait_booted(1)
+        c = s.connect(timeout=KA + 4)
+        c.sendall(b"GET /pid?1 HTTP/1.1\r\nHost: h\r\n\r\nGET /pid?2 HTTP/1.1\r\nHost: h\r\n\r\n")
+        buf = b""
+        t0 = time.time()
+        try:
+            while time.time() - t0 < KA + 3:
+                d = c.recv(65536)
+                if not d:
+                    break
+                buf += d
+        except OSError:
+            pass
+        c.close()
+        n = buf.count(b"HTTP/1.1 200")
+        ev = [{"e": "req", "c": 1, "nseg": 1, "nth": 1, "inflight": 0, "answered": n >= 1},
+              {"e": "req", "c": 1, "nseg": 0, "nth": 2, "inflight": 0, "answered": n >= 2}]
+        return {"threads": threads, "ka_ms": KA * 1000, "slack_ms": SLACK, "ev": ev}, \
+            {"threads": threads, "busy": 0, "plan": "pipelined", "log": s.errlog()[-300:]}
+    finally:
+        s.cleanup()
+
+
 def real_side(ctx):
     from props.reload_real import _parallel
     plan = [(2, 1, [1, 2, 3]), (1, 0, [2, 1, 4]), (3, 2, [3, 3])] if ctx.quick else \
         [(t, b, p) for t in (1, 2, 4) for b in range(0, t) for p in ([1, 2, 3], [2, 1, 4], [3, 3], [1, 1, 8])]
-    results = _parallel(plan, lambda a, i: run_real(a[0], a[1], a[2]), par=6)
+    plan = plan + [("pipelined", 2, None)] + ([] if ctx.quick else [("pipelined", 1, None)])
+    results = _parallel(plan, lambda a, i: run_pipelined(a[1]) if a[0] == "pipelined" else run_real(a[0], a[1], a[2]), par=7)
     traces = [r[0] for r in results]
     metas = [r[1] for r in results]
     verdicts, stats = tlc.validate_batch("GThreadRealTrace", "GThreadRealTrace.cfg", traces, name="GThreadRealTrace_C13")
@@ -92,6 +122,8 @@ def real_side(ctx):
             continue
         e = t["ev"][step - 1]
         where = "nth=%s,nseg=%s" % (("1" if e.get("nth") == 1 else ">1"), ("1" if e.get("nseg") == 1 else ">1")) if e["e"] == "req" else "idle"
+        if e["e"] == "req" and e.get("nseg") == 0:
+            where = "pipelined"
         ctx.violation("C13/%s/real/%s" % (v, where), "%s: %s event=%s" % (v, {k: m[k] for k in m if k != "log"}, e),
                       {"trace": t, "meta": m})
     ctx.sample({"real": metas[0]["plan"], "events": traces[0]["ev"]})
